@@ -80,17 +80,17 @@ fn funcs(cfg: &Cfg, thorough: bool) -> Vec<Func> {
     let mut v = vec![Func::LowDegree, Func::Random, Func::CorruptHalf, Func::Monomial(0), Func::Monomial(d)];
     // every degree above the bound
     for j in d + 1..n {
-        if thorough || n <= 32 || j <= d + 4 || j >= n - 2 || j % 7 == 0 {
+        if (thorough && n <= 64) || n <= 32 || j <= d + 4 || j >= n - 2 || j % 7 == 0 {
             v.push(Func::Monomial(j));
         }
     }
     // every single corrupted point; pairs on a lattice
     for i in 0..n {
-        if thorough || n <= 16 || i % 5 == 0 || i == n - 1 {
+        if (thorough && n <= 64) || n <= 16 || i % 5 == 0 || i == n - 1 {
             v.push(Func::CorruptOne(i));
         }
     }
-    let step = if thorough { 3 } else { 11 };
+    let step = if thorough && n <= 32 { 3 } else { 11 };
     for i in (0..n).step_by(step) {
         for j in ((i + 1)..n).step_by(step + 2) {
             v.push(Func::CorruptTwo(i, j));
@@ -124,7 +124,7 @@ fn position_sets(n: usize, thorough: bool) -> Vec<Vec<usize>> {
     let mut v: Vec<Vec<usize>> = (0..n).map(|i| vec![i]).collect();
     for i in 0..n {
         for j in i + 1..n {
-            if thorough || n <= 32 || (i + j) % 3 == 0 {
+            if (thorough && n <= 64) || n <= 32 || (i + j) % 3 == 0 {
                 v.push(vec![i, j]);
             }
         }
@@ -171,7 +171,7 @@ where
     })
 }
 
-fn c05_subs<E: Elt, H: ElementHasher<BaseField = E::BaseField> + 'static>(run: &Arc<Run>, hname: &'static str, reduced: bool) -> Vec<Arc<dyn Sub>>
+fn c05_subs<E: Elt, H: ElementHasher<BaseField = E::BaseField> + 'static>(run: &Arc<Run>, hname: &'static str, max_n: usize) -> Vec<Arc<dyn Sub>>
 where
     E::BaseField: Fld,
     H::Digest: 'static,
@@ -180,7 +180,7 @@ where
     let seed = run.seed();
     let mut cases: Vec<(Cfg, Func, Strategy)> = vec![];
     for cfg in configs(thorough) {
-        if reduced && cfg.n > 16 {
+        if cfg.n > max_n {
             continue;
         }
         for f in funcs(&cfg, thorough) {
@@ -280,16 +280,17 @@ fn main() {
     match args.prop.clone().as_str() {
         "C05" => {
             let run = Run::new(args, "exploration");
-            run.rule("stand-alone FRI: configurations (domain 16,32 quick / 16..128 thorough) x folding {2,4,8,16} x blowup {2,4,8} x remainder degree {0,1,3,7} with a well-formed schedule; functions: every monomial above the degree bound, the bound itself, a low-degree polynomial corrupted at every single point / on a lattice of pairs / on half the domain, a seeded random function; adversary strategies: honest, full remainder, remainder interpolated after seeing the queries, tampered opened value per layer, tampered committed value per layer, wrong folding challenge per layer, omitted / duplicated / swapped layers; positions: ALL position lists of size 1 and 2 (all subsets; a third of the pairs for n = 64 in quick) plus lists with repeats; for every (function, strategy, positions) the real FriVerifier must answer Ok exactly when the reference verifier written from the protocol description accepts; a case = (configuration, function, strategy), non-trivial position sets counted individually; the honest strategy's proof is compared byte for byte with the real FriProver's (trace conformance of the prover model)");
+            run.rule("stand-alone FRI: configurations (domain 16,32 quick / 16..128 thorough) x folding {2,4,8,16} x blowup {2,4,8} x remainder degree {0,1,3,7} with a well-formed schedule; functions: every monomial above the degree bound, the bound itself, a low-degree polynomial corrupted at every single point / on a lattice of pairs / on half the domain, a seeded random function; adversary strategies: honest, full remainder, remainder interpolated after seeing the queries, tampered opened value per layer, tampered committed value per layer, wrong folding challenge per layer, omitted / duplicated / swapped layers; positions: ALL position lists of size 1 and 2 (all subsets; a third of the pairs for n = 128) plus lists with repeats; functions and pairs are complete up to n = 32 (quick) / n = 64 (thorough, pair lattice of corruptions coarser above 32) and thinned as stated for the largest domain; largest domain per (field, hasher) instance: 32/16/16 quick, 128/32/64/16/16 thorough; for every (function, strategy, positions) the real FriVerifier must answer Ok exactly when the reference verifier written from the protocol description accepts; a case = (configuration, function, strategy), non-trivial position sets counted individually; the honest strategy's proof is compared byte for byte with the real FriProver's (trace conformance of the prover model)");
             run.assume("the public coin and the hashers are correct (C19, C11); Merkle openings are sound (C10); the reference verifier sees the adversary's committed layers, so 'authentic opening' is decided by equality with the committed rows");
             let mut subs = vec![];
             let quick = !run.tier().is_thorough();
-            subs.extend(c05_subs::<B64, hashers::Blake3_256<B64>>(&run, "blake3_256", false));
-            subs.extend(c05_subs::<QuadExtension<B64>, hashers::Blake3_256<B64>>(&run, "blake3_256", quick));
-            subs.extend(c05_subs::<B128, hashers::Sha3_256<B128>>(&run, "sha3_256", quick));
+            // largest domain per instance (quick: 32 / 16 / 16; thorough: 128 / 32 / 64 / 16 / 16)
+            subs.extend(c05_subs::<B64, hashers::Blake3_256<B64>>(&run, "blake3_256", if quick { 32 } else { 128 }));
+            subs.extend(c05_subs::<QuadExtension<B64>, hashers::Blake3_256<B64>>(&run, "blake3_256", if quick { 16 } else { 32 }));
+            subs.extend(c05_subs::<B128, hashers::Sha3_256<B128>>(&run, "sha3_256", if quick { 16 } else { 64 }));
             if !quick {
-                subs.extend(c05_subs::<CubeExtension<B62>, hashers::Blake3_192<B62>>(&run, "blake3_192", true));
-                subs.extend(c05_subs::<B62, hashers::Rp62_248>(&run, "rp62_248", true));
+                subs.extend(c05_subs::<CubeExtension<B62>, hashers::Blake3_192<B62>>(&run, "blake3_192", 16));
+                subs.extend(c05_subs::<B62, hashers::Rp62_248>(&run, "rp62_248", 16));
             }
             run.go(subs)
         },
